@@ -123,7 +123,10 @@ def check_decoder_side(ctx, rep, R3="I3", R4="I4"):
             rep.ob(R3, False, exc_node, reader, construct="arity %d: %s" % (n, exc),
                    witness="reading an index of %d symbol(s) can raise %s (a missing symbol must count as digit 0)" % (n, exc),
                    nontrivial=True)
+        shape = decmodel.reader_shape(ctx, reader)
         for st, v in fr.returns:
+            if shape is not None and isinstance(v, Tup) and len(v.items) == 2:
+                v = v.items[shape]           # (index, symbols read): the index component
             got = num_of(v)
             present = [t for t in st.tags if t[0] in ("sym", "end")]
             kinds = [t[0] for t in present]
